@@ -88,7 +88,11 @@ def r1(ctx):
             ctx.check(ok, "C06.R1", ra, "received_fragments[id].receive(index, msgseq, msg)", "the stripped fragment goes to the slot selected by its own id and index",
                       witness=[norm(c) for c in rc])
             keyed = [n for n in walk_own(ra.node) if isinstance(n, ast.Subscript) and norm(n.value) == "self.received_fragments"]
-            ctx.check(all(norm(n.slice) in (fid, "key") for n in keyed), "C06.R1", ra, "reassembly contexts are keyed by the fragment id", witness=sorted({norm(n.slice) for n in keyed}))
+            # a context is created and looked up under the id of the fragment at hand; the only other keys are the loop variables
+            # of the sweep (keys taken from the table itself), which may delete or read but never store
+            loop_vars = {x.id for n in walk_own(ra.node) if isinstance(n, (ast.For, ast.comprehension)) for x in ast.walk(n.target) if isinstance(x, ast.Name)}
+            ctx.check(all(norm(n.slice) == fid or (isinstance(n.slice, ast.Name) and n.slice.id in loop_vars and not isinstance(n.ctx, ast.Store)) for n in keyed), "C06.R1", ra,
+                      "reassembly contexts are keyed by the fragment id", witness=sorted({norm(n.slice) for n in keyed}))
             # ... and the names still mean what parsePayload returned: at every use on the store / lookup / receive / completeness /
             # delivery path the only reaching definition is the parsePayload unpacking (a loop variable re-using the name would
             # attribute the fragment to another message's context)
